@@ -60,6 +60,7 @@ type PodTerm struct {
 	Ns     []string          `json:"ns"`
 	NsAll  bool              `json:"nsAll"`
 	Weight int               `json:"weight"`
+	NsSel  map[string]string `json:"nsSel"` // C02: namespaceSelector matchLabels (non-empty, or NsAll = {}); see topo.go
 }
 
 // Spread is a topology spread constraint. When: DoNotSchedule | ScheduleAnyway.
@@ -97,6 +98,9 @@ type Pod struct {
 	PrefAff  []PodTerm         `json:"prefAff"`
 	PrefAnti []PodTerm         `json:"prefAnti"`
 	Spread   []Spread          `json:"spread"`
+	// C02 additions (topo.go): a bound pod with a deletionTimestamp / a terminal phase ("" = Running|Pending, Succeeded, Failed)
+	Terminating bool   `json:"terminating"`
+	Phase       string `json:"phase"`
 }
 
 // Res is a resource triple (0 = absent for limits).
@@ -263,6 +267,7 @@ type Scenario struct {
 	PVs      []PV                `json:"pvs"`
 	PVCs     []PVC               `json:"pvcs"`
 	Pods     []Pod               `json:"pods"`
+	Nss      []NS                `json:"nss"` // C02: namespaces with labels (completed by the driver: every namespace a pod lives in)
 }
 
 const NoInt = -1000
@@ -304,6 +309,10 @@ func nzPT(t []PodTerm) []PodTerm {
 	for _, x := range t {
 		x.Sel = nzM(x.Sel)
 		x.Ns = nzS(x.Ns)
+		x.NsSel = nzM(x.NsSel)
+		if len(x.NsSel) > 0 {
+			x.NsAll = false
+		}
 		out = append(out, x)
 	}
 	return out
@@ -473,6 +482,7 @@ func (s *Scenario) Normalise() {
 	for i := range s.Pods {
 		s.Pods[i].normalise()
 	}
+	s.completeNamespaces()
 	s.completeUniverse()
 }
 
